@@ -281,6 +281,12 @@ impl BlockDir {
         // TODO: Test having a block with the right compression but the wrong contents.
         // TODO: Warn on blocks in the wrong subdir.
         let blocks = self.exists.read().unwrap().clone();
+        // Hash-set iteration order would make the sequence of storage operations differ
+        // between two runs of the same simulated scenario.
+        #[cfg(feature = "verif_hooks")]
+        let blocks = blocks
+            .into_iter()
+            .collect::<std::collections::BTreeSet<BlockHash>>();
         debug!("Check {} blocks", blocks.len());
         let task = monitor.start_task("Validate blocks".to_string());
         task.set_total(blocks.len());
